@@ -52,6 +52,10 @@ type simCache struct {
 	queries  int
 	corrupt  int // corrupt the next n PDUs
 	fuzzy    bool // a damaged PDU was sent: what the router holds for this cache is not pinned down
+	// PDUs sent per type since the cache was configured, valid while no connection of this cache
+	// was cut or disturbed (lossy): the client's receive counters must equal them at quiescence
+	sentByType map[uint8]int
+	lossy      bool
 }
 
 type rpkiState struct {
@@ -130,9 +134,20 @@ func (c *simCache) send(conn *simConn, b []byte) error {
 		}
 		c.w.net.stats.fire("corrupt")
 		c.fuzzy = true
+		c.lossy = true
+	} else if len(b) >= 2 {
+		if c.sentByType == nil {
+			c.sentByType = map[uint8]int{}
+		}
+		c.sentByType[b[1]]++
 	}
 	c.mu.Unlock()
 	_, err := conn.Write(b)
+	if err != nil {
+		c.mu.Lock()
+		c.lossy = true
+		c.mu.Unlock()
+	}
 	return err
 }
 
@@ -224,6 +239,12 @@ func (c *simCache) serve(conn *simConn) {
 			c.w.logf("cache%d: unexpected PDU type %d", c.idx, h[1])
 		}
 	}
+}
+
+func (c *simCache) setLossy() {
+	c.mu.Lock()
+	c.lossy = true
+	c.mu.Unlock()
 }
 
 func sortedRecs(m map[roaRec]bool) []roaRec {
@@ -390,6 +411,8 @@ func rpkiOp(w *simWorld, actor int, op *Op) {
 			c.haveSync = false
 			c.synced = map[roaRec]bool{}
 			c.fuzzy = false
+			c.sentByType = map[uint8]int{}
+			c.lossy = false
 			c.mu.Unlock()
 		}
 		err := w.s.AddRpki(ctx, &api.AddRpkiRequest{Address: host, Port: 323, Lifetime: st.lifetime})
@@ -403,6 +426,7 @@ func rpkiOp(w *simWorld, actor int, op *Op) {
 		rpkiSettle()
 	case "delrpki":
 		c := st.caches[op.N]
+		c.setLossy()
 		host, _, _ := net.SplitHostPort(c.addr)
 		err := w.s.DeleteRpki(ctx, &api.DeleteRpkiRequest{Address: host, Port: 323})
 		w.logf("DeleteRpki cache%d: %v", op.N, err)
@@ -422,6 +446,7 @@ func rpkiOp(w *simWorld, actor int, op *Op) {
 		rpkiSettle()
 	case "resetrpki", "disablerpki":
 		c := st.caches[op.N]
+		c.setLossy()
 		host, _, _ := net.SplitHostPort(c.addr)
 		var err error
 		if op.Kind == "disablerpki" {
@@ -481,6 +506,7 @@ func rpkiOp(w *simWorld, actor int, op *Op) {
 		rpkiSettle()
 	case "cacherestart":
 		c := st.caches[op.N]
+		c.setLossy()
 		c.mu.Lock()
 		c.session += 7
 		c.serial = 1
@@ -499,6 +525,7 @@ func rpkiOp(w *simWorld, actor int, op *Op) {
 		w.probe("cache_restart")
 	case "cachedrop":
 		c := st.caches[op.N]
+		c.setLossy()
 		c.mu.Lock()
 		conn := c.conn
 		c.mu.Unlock()
@@ -661,6 +688,40 @@ func (w *simWorld) rpkiCompare(st *rpkiState) {
 		w.harnessError("ListRpkiTable: %v", err)
 		return
 	}
+	// ---- C19 (RTR stream handling): on an undisturbed connection every PDU the cache sent has been
+	// split off the stream intact and counted by its type
+	_ = w.s.ListRpki(context.Background(), &api.ListRpkiRequest{}, func(r *api.Rpki) {
+		if r.Conf == nil || r.State == nil {
+			return
+		}
+		host := net.JoinHostPort(r.Conf.Address, fmt.Sprint(r.Conf.RemotePort))
+		for i, c := range st.caches {
+			if c.addr != host || !st.configured[i] {
+				continue
+			}
+			c.mu.Lock()
+			lossy := c.lossy || c.fuzzy
+			sent := map[uint8]int{}
+			for k, v := range c.sentByType {
+				sent[k] = v
+			}
+			c.mu.Unlock()
+			if lossy {
+				continue
+			}
+			w.probe("rtr_counters_compared")
+			for _, x := range []struct {
+				name string
+				typ  uint8
+				got  int64
+			}{{"Serial Notify", 0, r.State.SerialNotify}, {"Cache Response", 3, r.State.CacheResponse}, {"IPv4 Prefix", 4, r.State.ReceivedIpv4},
+				{"IPv6 Prefix", 6, r.State.ReceivedIpv6}, {"End of Data", 7, r.State.EndOfData}, {"Cache Reset", 8, r.State.CacheReset}} {
+				if int64(sent[x.typ]) != x.got {
+					w.violate("C19", "rtr-pdu-lost", fmt.Sprintf("cache%d %s", i, x.name), fmt.Sprintf("the cache sent %d %s PDU(s) on an undisturbed connection, the client counts %d", sent[x.typ], x.name, x.got))
+				}
+			}
+		}
+	})
 	union := map[roaRec]bool{}
 	exact := true
 	for i, c := range st.caches {
